@@ -158,7 +158,7 @@ Qed.
 Print Assumptions C01q_no_deleted.
 
 Theorem C01q_boundary_iterators : forall (k : kind) (s : mesh), k <> KM -> bu_exact s -> wf_iter s -> flags_sized s ->
-  bnd_has_inc k s = true -> fbu s = true ->
+  bnd_has_inc k s = true ->
   (exists b e, bnd_begin k s = Some b /\
                b_trace (S (ent_n k s)) (ent_rdel k s) (ent_n k s) (is_boundary k s) b
                = Some (map Z.of_nat (filter (fun i => negb (ent_deleted k s i) && bdry k s i) (seq 0 (ent_n k s))), e) /\
@@ -167,11 +167,11 @@ Theorem C01q_boundary_iterators : forall (k : kind) (s : mesh), k <> KM -> bu_ex
 Proof. exact boundary_iter_exact. Qed.
 Print Assumptions C01q_boundary_iterators.
 
-(* bc_iter() with face incidences disabled: no guard, out-of-range read (D8) *)
-Theorem C01q_D8_bc_iter_refuted :
-  bu_exact ex_d8 /\ wf_iter ex_d8 /\ fbu ex_d8 = false /\ bnd_has_inc KC ex_d8 = true /\ bnd_begin KC ex_d8 = None.
-Proof. exact D8_bc_iter_undefined. Qed.
-Print Assumptions C01q_D8_bc_iter_refuted.
+(* a boundary iterator whose incidence guard fails (bc_iter: face incidences, since the D8 repair) is invalid at construction *)
+Theorem C01q_boundary_unguarded_invalid : forall (k : kind) (s : mesh), k <> KM -> flags_sized s -> bnd_has_inc k s = false ->
+  exists it0, bnd_begin k s = Some (mkB it0 false (-1)%Z).
+Proof. exact boundary_iter_unguarded_invalid. Qed.
+Print Assumptions C01q_boundary_unguarded_invalid.
 
 Example C01q_hypotheses_satisfiable :
   (bu_exact ex_two_tets /\ wf_iter ex_two_tets /\ full_bu ex_two_tets = true) /\
